@@ -1014,6 +1014,7 @@ Definition drv_sched : list choice :=
    CTask 0 0; CTask 1 0; CTask 0 0;             (* connect, connect, sql *)
    CTask 1 0;                                   (* the failing statement of the second file *)
    CTask 0 0;                                   (* the first file opens its second session *)
+   CTask 1 0;                                   (* the answer arrives: the record of the second file fails *)
    CTask 1 0; CTask 1 0; CReport 1;             (* close, done, reported: fail-fast sets the token *)
    CDriver; CTask 2 0; CTask 2 0; CReport 2;    (* the third file is pulled, waits for the lock ... *)
    CTask 0 0; CTask 0 1; CTask 0 0; CTask 0 0;  (* the first file is cancelled and closes both sessions (second one first) *)
@@ -1057,19 +1058,19 @@ Example nv_C16_driver_reports_each_file_once :
 Proof. split; [vm_compute; reflexivity|vm_compute; exact I]. Qed.
 
 (* a state in the middle of the run (after the failure has been reported, the first file still in flight) *)
-Definition drv_mid := fst (drun drv_cf (dst0 drv_cf) (firstn 20 drv_sched)).
+Definition drv_mid := fst (drun drv_cf (dst0 drv_cf) (firstn 21 drv_sched)).
 Example nv_C19_driver_progress :
   (0 < c_jobs drv_cf)%nat /\ DInv drv_cf drv_mid /\ d_phase drv_mid <> DEnd /\ d_token drv_mid = true.
 Proof.
   split; [cbn; lia|]. split.
-  - unfold drv_mid. destruct (drun drv_cf (dst0 drv_cf) (firstn 20 drv_sched)) as [st tr] eqn:E. cbn [fst].
+  - unfold drv_mid. destruct (drun drv_cf (dst0 drv_cf) (firstn 21 drv_sched)) as [st tr] eqn:E. cbn [fst].
     eapply DInv_reach; [apply DInv_init|eapply DriverTrans.drun_reach; exact E].
   - split; vm_compute; [discriminate|reflexivity].
 Qed.
 Example nv_C19_driver_never_doomed :
   (0 < c_jobs drv_cf)%nat /\
-  drun drv_cf (dst0 drv_cf) (firstn 20 drv_sched) = (drv_mid, snd (drun drv_cf (dst0 drv_cf) (firstn 20 drv_sched))).
-Proof. split; [cbn; lia|]. unfold drv_mid. destruct (drun drv_cf (dst0 drv_cf) (firstn 20 drv_sched)); reflexivity. Qed.
+  drun drv_cf (dst0 drv_cf) (firstn 21 drv_sched) = (drv_mid, snd (drun drv_cf (dst0 drv_cf) (firstn 21 drv_sched))).
+Proof. split; [cbn; lia|]. unfold drv_mid. destruct (drun drv_cf (dst0 drv_cf) (firstn 21 drv_sched)); reflexivity. Qed.
 
 (* ###################################################################### *)
 From SLT Require Import Partition PartitionProofs.
